@@ -210,8 +210,21 @@ def run_check(prop: str, tier: str) -> int:
         else:
             known_lines.append(f"KNOWN-FINDING: property={prop} {f['id']}: {f['summary']}")
 
-    # ---- violations: confirm by replay in a fresh interpreter ----------------- #
+    # ---- fixed findings suppress nothing: their replays must stay clean -------- #
     unmatched = []
+    regress = 0
+    for f in load_findings():
+        if f["property"] != prop or f.get("status") != "fixed" or not f.get("replay"):
+            continue
+        path = os.path.join(VERIF, f["replay"])
+        if not os.path.exists(path):
+            continue
+        regress += 1
+        back, rerr, _ = reproduces(prop, path)
+        if back:
+            unmatched.append({"replay": path, "clause": json.load(open(path))["expect"]["clause"], "seed": f"regression of fixed finding {f['id']}"})
+
+    # ---- violations: confirm by replay in a fresh interpreter ----------------- #
     matched = {}
     for v in violations:
         path = v["replay"]
@@ -261,6 +274,7 @@ def run_check(prop: str, tier: str) -> int:
             "determinism": det,
             "components": getattr(check, "COMPONENTS", {}),
             "known_findings_seen": matched,
+            "fixed_finding_replays_checked": regress,
             "unmatched_violations": len(unmatched),
             "lanes": lanes,
             "cpus": ncpu,
